@@ -134,16 +134,21 @@ def vc_access(ctx):
     def step_ok(c, lp):
         return is_call(c.term, 'apply', self_adt='VClock') and len(c.args) == 2 and versionless(c.args[1].val)[0] == 'field' \
             and versionless(c.args[1].val)[2] == 'Some.0' and item_derived(c.args[1].val, lp)
-    ok = accumulates(facts, body, it.ret, init_ok, src_ok, step_ok)
-    if not ok:
-        # fold form (or the 's' view of it)
-        r = drop_lv(it.ret)
-        if is_call(r, 'fold') and len(r[2]) == 3 and init_ok(drop_lv(r[2][1])) and param_path(iter_source(r[2][0])[0]) == (1, ()):
+    def fold_form(r, base_ok):
+        """`src.fold(VClock::default(), |mut c, d| { c.apply(d); c })` over a source whose base term satisfies base_ok"""
+        ok_ = False
+        if is_call(r, 'fold') and len(r[2]) == 3 and init_ok(drop_lv(r[2][1])) and base_ok(iter_source(r[2][0])[0]) \
+                and not iter_source(r[2][0])[2] and not (set(iter_adaptors(r[2][0])) & LOSSY_ADAPTORS):
             for clo, m in closure_bindings(r):
                 cb = facts.cb(clo[1])
                 cr = drop_lv(subst(interp(facts, cb).ret, m)) if cb is not None else None
-                ok = bool(cr is not None and cr[0] == 'post' and is_call(cr[1], 'apply', self_adt='VClock') and cr[1][2][0][0] == 'acc'
-                          and cr[1][2][1][0] == 'item')
+                ok_ = bool(cr is not None and cr[0] == 'post' and is_call(cr[1], 'apply', self_adt='VClock') and cr[1][2][0][0] == 'acc'
+                           and cr[1][2][1][0] == 'item')
+        return ok_
+    ok = accumulates(facts, body, it.ret, init_ok, src_ok, step_ok)
+    if not ok:
+        # fold form (or the 's' view of it)
+        ok = fold_form(drop_lv(it.ret), lambda b_: param_path(b_) == (1, ()))
     if not ok:
         # apply written out in the loop (or a shared private step inlined): every given dot stored into a clock that starts empty
         from .vclock import inline_apply_sites
@@ -181,6 +186,9 @@ def vc_access(ctx):
             from .vclock import inline_apply_sites
             sites_ = [x for x in inline_apply_sites(facts, fb, interp(facts, fb), local_clock=True) if not x['errs'] and x['frame'] is None]
             ok = len(sites_) == 1 and versionless(sites_[0]['gate']['dot']) == ('param', 1) and r[0] == 'obj' and len(sites_[0]['res']) == 3
+        if not ok:
+            # `iter::once(dot).collect()` seen through from_iter: the fold form over exactly the one given dot
+            ok = fold_form(r, lambda b_: is_call(drop_lv(b_), 'once') and len(drop_lv(b_)[2]) == 1 and versionless(drop_lv(b_)[2][0]) == ('param', 1))
         ctx.check(ok, 'from-dot', fb, 'the clock holding exactly the given dot', 'VClock::from(dot) is %s, expected an empty clock with the dot applied' % fmt(r, 5))
 
 
@@ -371,6 +379,18 @@ def type_impls(ctx):
             seen = set()
 
             def atom(t):
+                # `a.cmp(&b).is_eq()` / `a.cmp(&b) == Ordering::Equal` on a total order is `a == b`
+                if t[0] == 'call' and cinfo(t[1])['name'] in ('is_eq', 'is_ne') and len(t[2]) == 1 and is_call(drop_lv(t[2][0]), 'cmp') \
+                        and len(drop_lv(t[2][0])[2]) == 2:
+                    inner = atom(('binop', 'Eq' if cinfo(t[1])['name'] == 'is_eq' else 'Ne', drop_lv(t[2][0])[2][0], drop_lv(t[2][0])[2][1]))
+                    if inner is not None:
+                        return inner
+                if t[0] == 'call' and cinfo(t[1])['name'] in ('eq', 'ne') and len(t[2]) == 2:
+                    for x_, y_ in ((drop_lv(t[2][0]), drop_lv(t[2][1])), (drop_lv(t[2][1]), drop_lv(t[2][0]))):
+                        if is_call(x_, 'cmp') and len(x_[2]) == 2 and is_variant(y_, 'cmp::Ordering', 'Equal'):
+                            inner = atom(('binop', 'Eq' if cinfo(t[1])['name'] == 'eq' else 'Ne', x_[2][0], x_[2][1]))
+                            if inner is not None:
+                                return inner
                 if t[0] == 'call' and cinfo(t[1])['name'] in ('eq', 'ne') and len(t[2]) == 2 or (t[0] == 'binop' and t[1] in ('Eq', 'Ne')):
                     a_, b_ = (t[2][0], t[2][1]) if t[0] == 'call' else (t[2], t[3])
                     pa, pb = value_path(drop_lv(a_)), value_path(drop_lv(b_))
